@@ -6,13 +6,18 @@
 (*   frappy/protocol/dispatcher.py  make_update / broadcast_event /           *)
 (*                         handle_activate (snapshot)                         *)
 (* Every way the cache can change is one action; all of them go through       *)
-(* Announce.  What the property demands: the messages a subscribed connection *)
-(* received, replayed, give value-or-error AND timestamp of the cache, per    *)
-(* parameter in the order the cache changed, nothing invented, and a recovery *)
-(* from an error is always announced.  The suppression rules are the          *)
-(* documented ones (Parameter.update_unchanged: 'always' / 'never' / minimum  *)
-(* time between updates of equal values; repeated identical error).           *)
-(* Time is integer ticks; values and errors are interned ids.                 *)
+(* Announce.  What the PROPERTY demands (StreamReconstructs, Ordered,          *)
+(* RecoveryAnnounced / RecoveryNeverSuppressed): the messages a subscribed     *)
+(* connection received, replayed, give value-or-error AND timestamp of the     *)
+(* cache; per parameter they arrive in the order the cache changed, nothing    *)
+(* invented; a recovery from an error is always announced.                     *)
+(* WHEN an unchanged value / repeated error may be dropped is not part of the  *)
+(* property; Suppressed() transcribes the documented parameter semantics       *)
+(* (Parameter.update_unchanged: 'always' / 'never' / 'default' / minimum time  *)
+(* between updates of equal values; "no updates for repeated errors").  The    *)
+(* property itself only requires that a dropped announcement leaves cache AND  *)
+(* stream untouched.  AssignInvalid is left open (two allowed outcomes).       *)
+(* Time is integer ticks; values and errors are interned ids.                  *)
 EXTENDS Naturals, Sequences, FiniteSets, TLC
 
 CONSTANTS Params,       \* parameter names
